@@ -181,6 +181,7 @@ func renderFile(f *fit.File) string {
 		b.WriteString(";UF[" + strings.Join(xs, ".") + "]")
 	}
 	b.WriteString(";K" + renderContainer(fit.VerifContainer(f)))
+	b.WriteString(";A" + accessorAnswers(f))
 	return b.String()
 }
 
